@@ -15,6 +15,7 @@ def execOff : Op → Obs
   | .cycBegin => .phase "done"
   | .cycStep => .badOp "no cycle in progress"
   | .stats => .stats ⟨[], 0⟩
+  | .rootFrom _ _ _ _ | .rootFromLocal _ _ _ => .badOp "no context"
   | _ => .ok
 
 end Fastrace
